@@ -182,6 +182,10 @@ func (p *vPipe) WritePacketData(b []byte) (err error) {
 		}
 		i := vFrameIndex(b)
 		vs.Observe("write", "%d", i)
+		if i >= 0 && i < len(p.pattern) && p.pattern[i] == 4 {
+			// the bare errno, the way sendto(2) hands it over: the same VALUE for every such failure
+			err = syscall.ENOBUFS
+		}
 		if i >= 0 && i < len(p.pattern) && p.pattern[i] == 3 {
 			// the failure carries a real errno where code might look for one: would-block for odd frames,
 			// no-buffer-space for every fourth, a plain error otherwise; each is one failed write, to be
